@@ -229,6 +229,100 @@ def hist_runner(prop, tier, seed, scratch, spec):
     return {"violations": [(p_, d, "") for p_, d in reports], "coverage": cov, "explored": len(results), "known": []}
 
 
+def own_check_stream(seed, scratch, q):
+    """C05, last clause ("the database's own consistency check agrees"): images of committed files whose TREE
+    pages were damaged on purpose are given to the real `DB::check` and to its Lean model `implCheck`; the
+    theorem `own_check_agrees` is about the model, this ties the model to the code: whenever the model
+    accepts, the real check must accept.  (The converse is not demanded: the Lean decoder also bounds-checks
+    values and positions the real check never reads.)"""
+    import random
+    import imgcheck
+    pagesize, ncommits = 1024, 3
+    base = imgcheck.base_history(seed + 77, ncommits, pagesize)
+    res, _ = vlib.run_hist(scratch, base, name="c05own")
+    if vlib.failing(res):
+        msg = "base history for the own-check stream failed: %s" % list(vlib.failing(res).values())[0]["detail"][:160]
+        return 0, [(msg, msg)], {}
+    dbpath = scratch.db("db-%d" % scratch.n)
+    L = imgcheck.layout_consts()
+    r = random.Random(seed * 31 + 5)
+    imgdir = os.path.join(scratch.dbdir, "ownimg")
+    os.makedirs(imgdir, exist_ok=True)
+    items = []
+    for c in range(0, ncommits + 1):
+        data = bytearray(open("%s.c%d" % (dbpath, c), "rb").read())
+        os.remove("%s.c%d" % (dbpath, c))
+        o = L["pgPtr"] + L["mNumPages"]
+        np_ = max(int.from_bytes(data[o:o + 8], "little"), int.from_bytes(data[pagesize + o:pagesize + o + 8], "little"))
+        if not (4 <= np_ <= len(data) // pagesize) or c == 0:
+            continue
+        data = data[:np_ * pagesize]
+        for k in range(60 if q else 800):
+            d = bytearray(data)
+            pgno = r.randrange(2, np_)
+            kind = r.random()
+            if kind < 0.35:
+                off = r.choice([L["pgType"], L["pgCount"], L["pgCount"] + 1, L["pgOverflow"], L["pgOverflow"] + 1, L["pgId"]])
+            elif kind < 0.8:
+                off = L["pgPtr"] + r.randrange(0, 160)
+            else:
+                off = r.randrange(0, pagesize)
+            pos = pgno * pagesize + off
+            d[pos] = r.choice([d[pos] ^ 1, d[pos] ^ 0x80, 0, 1, 2, 3, 4, 0xff]) & 0xff
+            if d == data:
+                continue
+            pth = os.path.join(imgdir, "chk-c%d-%d" % (c, k))
+            open(pth, "wb").write(d)
+            items.append(("chk-c%d-%d" % (c, k), pth, pagesize))
+    impl, model = imgcheck.parallel_probe(scratch, items)
+    problems, counts = [], collections.Counter()
+    for iid, pth, _ in items:
+        io = impl.get(iid, "missing")
+        mm = re.search(r"implcheck=(ok|err)", (model.get(iid) or ("", ""))[1] or "")
+        mo = mm.group(1) if mm else ("noheader" if iid in model else "missing")
+        real_ok = io == "chk=ok"
+        counts["real=%s model=%s" % ("ok" if real_ok else "reject", mo)] += 1
+        if mo == "ok" and not real_ok:
+            keep = os.path.join(vlib.WORK, "replays", "C05-%s.img" % iid)
+            os.makedirs(os.path.dirname(keep), exist_ok=True)
+            shutil.copy(pth, keep)
+            problems.append((keep, "the Lean model of the database's own check accepts a damaged image that the real check rejects (%s)" % io[:80]))
+    return len(items), problems, dict(counts)
+
+
+def c05_runner(prop, tier, seed, scratch, spec):
+    res = hist_runner(prop, tier, seed, scratch, spec)
+    n, problems, counts = own_check_stream(seed, scratch, tier == "quick")
+    for keep, why in problems[:3]:
+        if isinstance(keep, str) and os.path.exists(keep):
+            res["violations"].append((keep, why, ""))
+        else:
+            p_ = vlib.write_replay(prop, "own-check-base", [], {"detail": keep if isinstance(keep, str) else str(keep)})
+            res["violations"].append((p_, str(keep)[:200], ""))
+    res["coverage"]["own_check_on_damaged_tree_images"] = {"images": n, "verdict_pairs": counts,
+        "rule": "single-byte damage in a tree page (header fields, element records, anywhere) of committed files; real DB::check vs Lean implCheck; a model-accepts/real-rejects pair is a violation"}
+    res["explored"] = res.get("explored", 0) + n
+    return res
+
+
+def c05_replay(prop, replay, scratch):
+    if not replay.endswith(".img"):
+        return hist_replay(prop, replay, scratch)
+    import imgcheck
+    impl, model = imgcheck.run_probe(scratch, [("chk-replay", replay, 1024)], "replay")
+    io = impl.get("chk-replay", "missing")
+    mm = re.search(r"implcheck=(ok|err)", (model.get("chk-replay") or ("", ""))[1] or "")
+    print("REPLAY real=%s model=%s" % (io[:200], mm.group(1) if mm else "?"))
+    if mm and mm.group(1) == "ok" and io != "chk=ok":
+        print("VIOLATION property=%s replay=%s" % (prop, replay))
+        return 1
+    return 0
+
+
+PROPS["C05"]["runner"] = c05_runner
+PROPS["C05"]["replay"] = c05_replay
+
+
 def hist_replay(prop, replay, scratch):
     lines = [l.rstrip("\n") for l in open(replay) if l.strip() and not l.startswith("#")]
     if not lines:
@@ -414,6 +508,7 @@ def c12_runner(prop, tier, seed, scratch, spec):
         c, slot, changed = info[iid]
         io = impl.get(iid, "missing")
         mo = model.get(iid, ("missing", ""))[0]
+        own = imgcheck.own_check_mismatch(impl.get(iid, ""), model.get(iid))
         harmless = not (changed & sig)
         cls = ("newest" if slot == newest[c] else "older") + ("-harmless" if harmless else "-significant")
         classes[cls] += 1
@@ -436,6 +531,8 @@ def c12_runner(prop, tier, seed, scratch, spec):
             problem = "a header with one damaged checked byte (offset %d) was trusted" % list(changed)[0]
         if problem is None and io != mo:
             problem = "model and implementation disagree: model=%s" % mo[:100]
+        if problem is None and own:
+            problem = own
         if problem is None:
             n_ok += 1
             continue
@@ -547,6 +644,7 @@ def c15_runner(prop, tier, seed, scratch, spec):
     for name, dst, ps in items:
         n_cases += 1
         io, mo = impl.get(name, "missing"), model.get(name, ("missing", ""))[0]
+        own = imgcheck.own_check_mismatch(io, model.get(name))
         idump, ichk = imgcheck.dump_of(io)
         problem = None
         if idump != want[name]:
@@ -555,6 +653,8 @@ def c15_runner(prop, tier, seed, scratch, spec):
             problem = "DB::check fails on a golden file: %s" % ichk
         elif mo != io:
             problem = "the pinned-layout Lean reader disagrees with the implementation: %s" % mo[:100]
+        if problem is None and own:
+            problem = own
         if problem:
             keep = os.path.join(vlib.WORK, "replays", "C15-%s.db" % name)
             os.makedirs(os.path.dirname(keep), exist_ok=True)
@@ -594,6 +694,7 @@ def c15_runner(prop, tier, seed, scratch, spec):
     for name, dst, other in items:
         n_cases += 1
         io, mo = impl.get(name, "missing"), model.get(name, ("missing", ""))[0]
+        own = imgcheck.own_check_mismatch(io, model.get(name))
         after = hashlib.sha1(open(dst, "rb").read()).hexdigest()
         problem = None
         if not io.startswith("panic:") and not io.startswith("err:"):
@@ -602,6 +703,8 @@ def c15_runner(prop, tier, seed, scratch, spec):
             problem = "the refused open modified the file"
         elif io != mo:
             problem = "refused differently from the model: impl=%s model=%s" % (io[:40], mo[:40])
+        if problem is None and own:
+            problem = own
         if problem:
             keep = os.path.join(vlib.WORK, "replays", "C15-%s.db" % name)
             shutil.copy(dst, keep)
@@ -738,6 +841,7 @@ def c02_runner(prop, tier, seed, scratch, spec):
         dpre, dpost, after, kind, idx, seq = expect[iid]
         io = impl.get(iid, "missing")
         mo = model.get(iid, ("missing", ""))[0]
+        own = imgcheck.own_check_mismatch(impl.get(iid, ""), model.get(iid))
         idump, ichk = imgcheck.dump_of(io)
         problem = None
         if idump is None:
@@ -750,6 +854,8 @@ def c02_runner(prop, tier, seed, scratch, spec):
             problem = "commit had returned success but its effects did not survive"
         elif io != mo:
             problem = "the Lean model (decoder + checker) disagrees: %s" % mo[:100]
+        if problem is None and own:
+            problem = own
         if problem is None:
             n_ok += 1
             continue
